@@ -780,6 +780,20 @@ inductive OriginSum (t : Tree) : Option Id → Int → Int → Prop where
   | step {p : Id} {pw : Win} {a b : Int} : t.wins[p]? = some pw → OriginSum t pw.parent a b →
       OriginSum t (some p) (a + pw.rect.top) (b + pw.rect.left)
 
+/-- An offer was made while the window and all its ancestors were visible (the ghost bit of the log item). -/
+def ShownOffer : LogItem → Prop
+  | .offer _ _ _ b => b = true
+  | _ => True
+
+/-- What a log item carries, if it is an offer or a handler call. -/
+def evOf : LogItem → Option Ev
+  | .offer _ _ e _ => some e
+  | .call _ _ _ _ _ e => some e
+  | _ => none
+
+/-- Every event the item carries satisfies `Q`. -/
+def Carries (Q : Ev → Prop) (i : LogItem) : Prop := ∀ e, evOf i = some e → Q e
+
 /-- The windows of the subtree of `win` (through the children lists). -/
 def subtree (t : Tree) : Nat → Id → List Id
   | 0, _ => []
